@@ -217,13 +217,20 @@ theorem optSub_ok (site : String) (a : Nat) (b : Option Nat) (h : ∀ v, b = som
     simp only [optSub, csub_ok _ _ _ (h v rfl)]
     exact ⟨_, rfl⟩
 
-theorem modEnds_ok (m : ModRaw) (h : readerKeeps m = true) : NoPanic (modEnds m) := by
+theorem jsonEnd_ok (m : ModRaw) (h : readerKeeps m = true) : NoPanic (jsonEnd m) := by
   unfold readerKeeps at h
   simp only [Bool.and_eq_true, bne_iff_ne, ne_eq, decide_eq_true_eq] at h
-  obtain ⟨h0, h1⟩ := h
   have hu : U64MAX = 18446744073709551615 := rfl
-  unfold modEnds jsonEnd textEnd
-  simp only [cadd64_ok _ m.base m.size (by omega), bind_ok, csub_ok _ (m.base + m.size) 1 (by omega), pure_eq]
+  unfold jsonEnd
+  rw [cadd64_ok _ _ _ (by omega)]
+  exact ⟨_, rfl⟩
+
+theorem textEnd_ok (m : ModRaw) (h : readerKeeps m = true) : NoPanic (textEnd m) := by
+  unfold readerKeeps at h
+  simp only [Bool.and_eq_true, bne_iff_ne, ne_eq, decide_eq_true_eq] at h
+  have hu : U64MAX = 18446744073709551615 := rfl
+  unfold textEnd
+  simp only [cadd64_ok _ m.base m.size (by omega), bind_ok, csub_ok _ (m.base + m.size) 1 (by omega)]
   exact ⟨_, rfl⟩
 
 end MdModel.Process
